@@ -13,6 +13,12 @@ Extracted (nothing is guessed; an unrecognised body gives `none` and a failed st
                         ExecutionContext have the transcribed bodies
   * instrShape          GET / MEM / UPDATE / GET_AND_UPDATE of instructions/struct.py call get / contains / update
   * keyHashPrefix / keyHashDigestSize   `forge_script_expr` = base58 `expr` of Blake2b with a 32-byte digest
+  * packShape           `MichelsonType.pack` = `05 ‖ forge(legacy_optimized | optimized)`, `forge` = `forge_micheline(to_micheline_value(mode))`,
+                        and `PairType.to_micheline_value` keeps `self.items` (two components, never a flattened comb) in the
+                        `legacy_optimized` mode and writes them as one `Pair` primitive
+  * duplicateShape      `BigMapType.duplicate` (DUP): same id, deep copies of the stored items and removed keys
+  * mergeShape          how `merge_lazy_diff` (pytezos' own reading of an emitted diff) decides that an update carries a
+                        value: `is not None` (repaired) or truthiness (pinned: an empty-sequence value — `{}` — reads as a removal)
 """
 import ast
 import copy
@@ -205,6 +211,68 @@ def get_big_map_value(self, ptr, key_hash):
 ''',
 }
 
+PACK = '''
+def pack(self, legacy=False):
+    data = self.forge(mode='legacy_optimized' if legacy else 'optimized')
+    return b'\\x05' + data
+'''
+
+FORGE = '''
+def forge(self, mode='readable'):
+    val_expr = self.to_micheline_value(mode=mode)
+    return forge_micheline(val_expr)
+'''
+
+PAIR_MICH = '''
+def to_micheline_value(self, mode='readable', lazy_diff=False):
+    if mode == 'legacy_optimized':
+        items = self.items
+    else:
+        items = list(self.iter_comb())
+    args = [arg.to_micheline_value(mode=mode, lazy_diff=lazy_diff) for arg in items]
+    if mode in ['readable', 'legacy_optimized']:
+        return {'prim': 'Pair', 'args': args}
+    elif mode == 'optimized':
+        if len(args) == 2:
+            return {'prim': 'Pair', 'args': args}
+        elif len(args) == 3:
+            return {'prim': 'Pair', 'args': [args[0], {'prim': 'Pair', 'args': args[1:]}]}
+        elif len(args) >= 4:
+            return args
+        else:
+            raise AssertionError(f'unexpected number of args {len(args)}')
+    else:
+        raise AssertionError(f'unsupported mode {mode}')
+'''
+
+DUPLICATE = '''
+def duplicate(self):
+    res = type(self)(items=deepcopy(self.items), ptr=self.ptr, removed_keys=deepcopy(self.removed_keys))
+    res.context = self.context
+    return res
+'''
+
+MERGE = '''
+def merge_lazy_diff(self, lazy_diff):
+    diff = next((item for item in lazy_diff if item['kind'] == 'big_map' and item['id'] == str(self.ptr)), None)
+    if diff:
+        items = []
+        removed_keys = []
+        for update in diff['diff'].get('updates', []):
+            key = self.args[0].from_micheline_value(update['key'])
+            if %s:
+                value = self.args[1].from_micheline_value(update['value'])
+                items.append((key, value))
+            else:
+                removed_keys.append(key)
+        res = type(self)(ptr=self.ptr, items=items, removed_keys=removed_keys)
+        res.context = self.context
+        return res
+    else:
+        return copy(self)
+'''
+MERGE_TESTS = (("update.get('value') is not None", 'isNotNone'), ("'value' in update", 'isNotNone'), ("update.get('value')", 'truthy'))
+
 SCRIPT_EXPR = '''
 def forge_script_expr(packed_key):
     data = blake2b_32(packed_key).digest()
@@ -277,6 +345,22 @@ def gen_c15(status):
          'one diff entry: id/action from `get_big_map_diff`, one update per element of `self`, result = empty map at the new id')
     flag('BigMapType.attach_context shape', 'attachShape', _same(find_func(bm, 'attach_context'), ATTACH),
          '`attach_context`: temporary id for a literal, `register_big_map` for an id')
+    base = find_class(parse('michelson/types/base.py'), 'MichelsonType')
+    pair = find_class(parse('michelson/types/pair.py'), 'PairType')
+    flag('pack(legacy) = 05 + forge_micheline(legacy_optimized form), pairs unflattened', 'packShape',
+         _same(find_func(base, 'pack'), PACK) and _same(find_func(base, 'forge'), FORGE) and _same(find_func(pair, 'to_micheline_value'), PAIR_MICH),
+         '`pack(legacy=True)` = `05 ‖ forge_micheline(to_micheline_value(legacy_optimized))`; a pair keeps its two components')
+    flag('BigMapType.duplicate shape', 'duplicateShape', _same(find_func(bm, 'duplicate'), DUPLICATE),
+         '`duplicate` (DUP): same id, deep copies of the stored items and of the removed keys')
+    mfn = find_func(bm, 'merge_lazy_diff')
+    mshape = next((name for test, name in MERGE_TESTS if _same(mfn, MERGE % test)), None)
+    status['BigMapType.merge_lazy_diff shape'] = (
+        mshape is not None, 'value test: is not None' if mshape == 'isNotNone' else
+        'truthiness test: an update whose value is an empty sequence is read as a removal' if mshape == 'truthy' else 'unrecognised body')
+    out.append('/-- how `merge_lazy_diff` decides that an update of the diff carries a value -/\n'
+               'inductive MergeTest\n  | isNotNone   -- `update.get(\'value\') is not None`\n'
+               '  | truthy      -- `if update.get(\'value\')`: an empty Micheline sequence is falsy\n  deriving DecidableEq, Repr\n')
+    out.append(f'def mergeShape : Option MergeTest := {"some ." + mshape if mshape else "none"}\n')
     ok = all(_same(find_func(ctx, n), ref) for n, ref in CTX.items())
     bad = [n for n, ref in CTX.items() if not _same(find_func(ctx, n), ref)]
     status['ExecutionContext big_map functions shape'] = (ok, '' if ok else 'unrecognised: ' + ', '.join(bad))
